@@ -13,12 +13,14 @@ ASSUMPTIONS = ['the model variant (compress under the write lock or not; close()
                'a wrong choice can only produce model/real disagreements',
                'preemption is explored at source-line granularity (sys.settrace) plus the point between the two halves of sendall; '
                "the GIL's real switch points inside a line, C-level atomicity of zlib calls and sendall, and memory visibility are outside the model",
-               'the simulated socket never fails and writes each sendall in two halves',
+               'the simulated socket writes each sendall in n chunks (n = 2 by default; families with n = 1, 3, 4 and a different n per call) '
+               'and fails only where the case says so (`fail`: after k chunks of a given call); the model is then `Model/ThreadsN.lean` with the same socket',
                'arguments are valid (argument checking is thread-local: C03)',
                'the model-guided exhaustive enumeration glues the loop thread\'s reads of its own `closed` / `_sock` to its preceding step '
                '(they commute with everything); the sampled line-level schedules do not']
 
-LEANCHECK_MODULES = ['Lomond.Model.Threads', 'Lomond.Proofs.Threads', 'Lomond.Proofs.ThreadsZ']
+LEANCHECK_MODULES = ['Lomond.Model.Threads', 'Lomond.Model.ThreadsN', 'Lomond.Proofs.Threads', 'Lomond.Proofs.ThreadsZ', 'Lomond.Proofs.ThreadsR',
+                     'Lomond.Proofs.ThreadsN', 'Lomond.Proofs.ThreadsNW']
 
 
 def msg(t, i, kind='t'):
@@ -34,6 +36,9 @@ def prog(t, kinds):
             out.append('%s=%s' % (k, msg(t, i)))
         elif k in ('pi', 'po', 'rp'):
             out.append('%s=%s' % (k, ('p%d.%d' % (t, i)).encode().hex()))
+        elif k in ('rm', 'rm2'):
+            # a compressed message from the server; long repeats, so that a fragment refers back to the one before
+            out.append('%s=%s' % (k, ('server message %d.%d, server message, lomond interleaving payload' % (t, i)).encode().hex()))
         elif k == 'tk':
             out.append('tk')
         else:
@@ -41,8 +46,44 @@ def prog(t, kinds):
     return out
 
 
-def case(z, kinds_per_thread, pb=None, family=''):
-    return dict(z=z, progs=[prog(t, ks) for t, ks in enumerate(kinds_per_thread)], pb=pb, family=family)
+def case(z, kinds_per_thread, pb=None, family='', n=None, fail=None):
+    c = dict(z=z, progs=[prog(t, ks) for t, ks in enumerate(kinds_per_thread)], pb=pb, family=family)
+    if n is not None:
+        c['n'] = n
+    if fail:
+        c['fail'] = [list(f) for f in fail]
+    return c
+
+
+def socket_families(tier):
+    """the general socket: sendall in n = 1, 3, 4 chunks (and a different n per call); sendalls that fail after k chunks"""
+    fams = [
+        case(0, [['st0'], ['sb0']], n=1, family='chunks-1'),
+        case(0, [['st0'], ['sb0']], n=3, family='chunks-3'),
+        case(0, [['st0', 'pi'], ['sb0', 'po']], n=3, pb=3, family='chunks-3'),
+        case(0, [['st0'], ['sb0']], n=4, pb=4, family='chunks-4'),
+        case(1, [['st1'], ['sb1']], n=3, family='chunks-3-deflate'),
+        case(2, [['st1', 'sb1'], ['sb1']], n={'*': 2, '0.1': 4, '1.0': 1}, pb=3, family='chunks-mixed'),
+        case(0, [['st0'], ['rp']], n=3, family='chunks-3-loop'),
+        case(1, [['st1'], ['rm']], n=3, pb=4, family='chunks-3-receive'),
+    ]
+    # failures: every k for one call, against a second thread
+    for k in range(0, 3):
+        fams.append(case(0, [['st0', 'pi'], ['sb0']], n=2, fail=[(0, 0, k)], pb=4, family='fail-after-%d-of-2' % k))
+    for k in range(0, 4):
+        fams.append(case(0, [['st0', 'sb0'], ['pi']], n=3, fail=[(0, 0, k)], pb=3, family='fail-after-%d-of-3' % k))
+    fams.append(case(2, [['st1', 'sb1'], ['sb1']], n=2, fail=[(0, 0, 1), (1, 0, 0)], pb=3, family='fail-deflate-reset'))
+    fams.append(case(0, [['st0'], ['rp', 'tk']], n=2, fail=[(1, 0, 1)], pb=4, family='fail-loop-pong'))
+    fams.append(case(0, [['sb0'], ['tk']], n=3, fail=[(1, 0, 2)], family='fail-loop-ping'))
+    if tier != 'quick':
+        fams += [
+            case(0, [['st0', 'sb0'], ['sb0', 'pi']], n=3, pb=5, family='chunks-3'),
+            case(0, [['st0'], ['sb0'], ['pi']], n=3, pb=3, family='chunks-3-3threads'),
+            case(0, [['st0', 'sb0', 'pi'], ['sb0', 'po']], n=3, fail=[(0, 1, 1), (1, 0, 3)], pb=4, family='fail-two'),
+            case(0, [['st0'], ['sb0'], ['pi']], n=4, fail=[(1, 0, 2)], pb=3, family='fail-3threads'),
+            case(2, [['st1', 'sb1', 'st1'], ['sb1', 'st1']], n=3, fail=[(0, 1, 2)], pb=3, family='fail-deflate-reset'),
+        ]
+    return fams
 
 
 def big_case():
@@ -77,8 +118,61 @@ def line_witnesses():
     return out
 
 
+def receive_gap_cases(tier):
+    """the loop thread receives and inflates compressed messages BETWEEN EVERY PAIR OF SYNC POINTS of a compressing
+    sender: for each shape the sender's and the loop's sync-step counts are measured on the real code (single-threaded
+    calibration runs), then every placement of the receive(s) as a block in the sender's step sequence is a schedule."""
+    shapes = []
+    for z in (1, 2, 3, 4):
+        shapes.append((z, ['st1'], ['rm']))
+        shapes.append((z, ['sb1', 'st1'], ['rm', 'rm']))
+        shapes.append((z, ['st1'], ['rm2']))
+    if tier != 'quick':
+        for z in (1, 2, 3, 4):
+            shapes.append((z, ['st1', 'sb1'], ['rm2', 'rm', 'rp']))
+            shapes.append((z, ['st1', 'st0', 'sb1'], ['rm', 'rm2']))
+    out = []
+    for z, snd, rcv in shapes:
+        c = case(z, [snd, rcv])
+        k0 = len(sched.run_real(dict(z=z, progs=[c['progs'][0]], schedule=[], mode='sync'))['steps'])
+        rl = sched.run_real(dict(z=z, progs=[['pi='], c['progs'][1]], schedule=[], mode='sync'))['steps']
+        per_call = []          # sync steps of each loop call
+        seen = [k for t, k in rl if t == 1]
+        # the loop's calls are delimited by their leading `rd:sock`
+        cur = []
+        for k in seen:
+            if k == 'rd:sock' and cur:
+                per_call.append(len(cur)); cur = []
+            cur.append(k)
+        if cur:
+            per_call.append(len(cur))
+        n = len(per_call)
+        # (a) all receives as one block at gap j
+        for j in range(k0 + 1):
+            out.append(dict(z=z, progs=c['progs'], mode='sync', family='receive-gap',
+                            schedule=[0] * j + [1] * sum(per_call) + [0] * (k0 - j)))
+        # (b) the receives spread: call i of the loop at gap g_i, g_0 <= g_1 <= ...
+        if n >= 2:
+            import itertools
+            for gaps in itertools.combinations_with_replacement(range(k0 + 1), n):
+                if len(set(gaps)) == 1:
+                    continue
+                sc, pos = [], 0
+                for g, l in zip(gaps, per_call):
+                    sc += [0] * (g - pos) + [1] * l
+                    pos = g
+                sc += [0] * (k0 - pos)
+                out.append(dict(z=z, progs=c['progs'], mode='sync', family='receive-gap-spread', schedule=sc))
+        # (c) inside a receive: the sender runs between the inflate steps of the loop
+        for j in range(1, per_call[0]):
+            for a in range(0, k0 + 1, 2):
+                out.append(dict(z=z, progs=c['progs'], mode='sync', family='receive-split',
+                                schedule=[0] * a + [1] * j + [0] * (k0 - a) + [1] * (sum(per_call) - j)))
+    return out
+
+
 def families(tier):
-    fams = [
+    fams = socket_families(tier) + [
         case(0, [['st0'], ['sb0']], family='plain'),
         case(0, [['st0', 'pi'], ['sb0', 'po']], family='plain'),
         big_case(),
@@ -93,6 +187,10 @@ def families(tier):
         case(0, [['sb0', 'pi'], ['rp', 'tk']], pb=4, family='loop-pong-ping'),
         case(0, [['st0'], ['tk']], family='loop-ping'),
         case(1, [['st1', 'sb1'], ['tk', 'rp']], pb=3, family='loop-pong-ping'),
+        case(1, [['st1'], ['rm']], family='loop-receive'),
+        case(2, [['st1'], ['rm']], family='loop-receive'),
+        case(3, [['sb1'], ['rm2']], pb=4, family='loop-receive'),
+        case(4, [['st1', 'sb1'], ['rm', 'rp']], pb=3, family='loop-receive'),
     ]
     if tier != 'quick':
         fams += [
@@ -106,6 +204,9 @@ def families(tier):
             case(1, [['st1', 'sb1', 'st1'], ['sb1', 'st1', 'pi'], ['rp', 'tk', 'rp']], pb=2, family='deflate-3x3-loop'),
             case(0, [['st0', 'sb0', 'pi'], ['sb0', 'po', 'st0'], ['tk', 'rp', 'rp']], pb=2, family='plain-3x3-loop'),
             case(1, [['st1', 'sb1', 'st1'], ['sb1', 'st1', 'sb1']], pb=3, family='deflate-2x3'),
+            case(2, [['st1', 'sb1'], ['rm', 'rm2']], pb=4, family='loop-receive'),
+            case(1, [['st1'], ['sb1'], ['rm', 'rm']], pb=3, family='loop-receive-3'),
+            case(4, [['st1'], ['sb1'], ['rm2', 'rp']], pb=3, family='loop-receive-3'),
         ]
     return fams
 
@@ -113,14 +214,21 @@ def families(tier):
 def line_cases(rng, n):
     shapes = [(0, [['st0'], ['sb0']]), (1, [['st1'], ['st1']]), (2, [['st1'], ['sb1']]), (1, [['st1', 'sb1'], ['sb1', 'st1']]),
               (1, [['st1'], ['sb1'], ['st1']]), (0, [['st0', 'pi'], ['rp', 'tk']]), (1, [['st1', 'sb1'], ['sb1'], ['rp', 'tk']]),
-              (2, [['st1', 'sb1', 'st1'], ['sb1', 'st1'], ['st1']])]
+              (2, [['st1', 'sb1', 'st1'], ['sb1', 'st1'], ['st1']]), (2, [['st1', 'sb1'], ['rm', 'rm2']]),
+              (1, [['st1'], ['sb1'], ['rm', 'rp', 'rm']]), (4, [['st1', 'st1'], ['rm2', 'rm']]), (3, [['sb1'], ['st1'], ['rm2']])]
     out = []
     for k in range(n):
         z, kinds = shapes[k % len(shapes)]
         c = case(z, kinds)
         ncalls = max(len(p) for p in kinds)
+        extra = {}
+        if k % 3 == 1:
+            extra['n'] = 1 + k % 4
+        if k % 5 == 2 and z in (0, 2):
+            extra['n'] = 3
+            extra['fail'] = [[0, 0, k % 4]]
         out.append(dict(z=z, progs=c['progs'], mode='line', family='line-sample',
-                        schedule=thrutil.random_line_schedule(rng, len(kinds), ncalls)))
+                        schedule=thrutil.random_line_schedule(rng, len(kinds), ncalls), **extra))
     return out
 
 
@@ -128,15 +236,23 @@ def explore(res, tier, seed, model_ok=True):
     rng = random.Random(seed)
     quick = tier == 'quick'
     fams = families(tier)
-    res.rule = ('real lomond (one WebSocket, handshake completed, simulated socket writing every sendall in two halves) driven by a deterministic '
-                'scheduler: (a) the D7 witness schedules; (b) for each program family (2 threads x 1-2 calls%s; plain / deflate with context takeover / '
+    res.rule = ('real lomond (one WebSocket, handshake completed, simulated socket writing every sendall in n chunks: n = 2 by default, families with '
+                'n = 1, 3, 4 and a different n per call; sendalls made to FAIL after k chunks of a given call, every k) driven by a deterministic '
+                'scheduler: (a) the D7 witness schedules; (a2) the loop thread receiving and inflating a COMPRESSED message (one frame / two fragments; '
+                'z = 1..4: context takeover, client_no_context_takeover, server_no_context_takeover, both) between EVERY pair of sync points of a compressing '
+                'sender, as a block, spread over two receives, and split inside the receive; (b) for each program family (2 threads x 1-2 calls%s; plain / deflate with context takeover / '
                 'client_no_context_takeover; application sends, the loop\'s auto-pong and auto-ping) EVERY maximal interleaving at sync-step granularity '
                 '(up to the stated preemption bound where given), enumerated by the model driver and executed on the real code; (c) 300 (quick) / 3000 uniformly random sync-granularity schedules that also schedule threads waiting for the lock; (d) %d sampled '
                 'line-granularity schedules (sys.settrace, every source line of lomond/*.py a preemption point).  Model and real code are compared on '
-                'the executed sync-step log, every chunk written, per-call results and final flags.  Oracle: reference decoder + zlib peer on the bytes written.  '
+                'the executed sync-step log, every chunk written, per-call results and final flags (model = Model/ThreadsN.lean with the same socket).  Oracle: reference decoder + zlib peer on the bytes written '
+                '(torn heads of frames whose sendall the harness made fail are set aside after checking that they are a prefix of the data handed to sendall; a call whose sendall failed must raise TransportFail); '
+                'the application receives exactly the compressed messages the server sent.  '
                 'non-trivial = some thread was preempted; distinct by (programs, executed step sequence)') % (
                     '' if quick else ', 3 threads x <=3 calls with a preemption bound', 120 if quick else 1500)
     cases = witnesses() + line_witnesses()
+    gaps = receive_gap_cases(tier)
+    res.exhaustive['receive_between_every_pair_of_sender_sync_points (z=1..4; block, spread and split placements)'] = len(gaps)
+    cases += gaps
     enum = thrutil.enumerate_cases(fams, model_ok, rng, cap=None if not quick else 6000)
     for f in fams:
         res.exhaustive['sync_interleavings %s z=%d pb=%s [%s]' % (f['family'], f['z'], f.get('pb') or 'none', thrutil.progs_str(f)[:60])] = f.get('n_schedules', 0)
